@@ -183,7 +183,16 @@ def run_case(P, scratch, backend_kind, nworkers, rng, flags=None, faults=None, k
 
         def policy(s_, runnable, inner=inner):
             pend = s_.waiting.get(holder)
-            if not fired['done'] and pend is not None and pend[0] == 'endOk' and pend[1] == task:
+            if not fired['done'] and pend is not None and pend[0] == 'endOk' and pend[1] == task and what.startswith('remove-result:'):
+                # another process invalidates one result (a different store object on the same data) - once that result exists
+                victim = int(what.split(':')[1])
+                hv = [h_ for h_, i_ in P['index'].items() if i_ == victim][0]
+                st = be.store()
+                if st.can_load(hv):
+                    fired['done'] = True
+                    st.remove(hv)
+                    lib.CALLS.append(('R', 'remove-result', victim, None, ''))
+            elif not fired['done'] and pend is not None and pend[0] == 'endOk' and pend[1] == task:
                 fired['done'] = True
                 st = be.store()
                 saved_store = jug.task.Task.store
